@@ -708,6 +708,7 @@ func (s *muxerStream) rotateParts(
 
 				for {
 					if s.closed {
+						s.mutex.Unlock()
 						w.WriteHeader(http.StatusInternalServerError)
 						return
 					}
